@@ -90,6 +90,11 @@ class Ctx:
         self.baselines = {}
 
     def count(self, key, n=1):
+        # (keys are categories, never data: whatever an answer contributes to a key is cut short, and the histogram as a
+        # whole stays small - an evidence file is a summary)
+        key = key[:64]
+        if key not in self.stats and len(self.stats) >= 600 and not key.startswith(("findings_", "known")):
+            key = "other"
         self.stats[key] = self.stats.get(key, 0) + n
 
 
@@ -110,7 +115,7 @@ def judge_c01(ctx, idx, op, impl, mi, ms, reason):
             if impl != want:
                 f.append(Finding("property", idx, "encoded octets differ from the independent RFC 6733 encoder" if op[0] == "enc" else "reported length differs from the number of octets of the RFC encoding", expected=want, observed=impl, name="C01_encode_exact"))
     else:
-        ctx.count("op_" + op[0] + "_" + impl.split(" ")[0])
+        ctx.count("op_" + op[0] + "_" + (impl.split(" ")[0] if op[0] not in ("dump", "acc") else "answered"))
     return f
 
 
